@@ -54,8 +54,10 @@ fn create_current_thread_server(
 
     let core_ids = core_affinity::get_core_ids().unwrap();
 
+    // one server (and so one connection limit) shared by all listener threads
+    let shared_server = memcache_server::memc_tcp::MemcacheTcpServer::new(memc_config, store);
     for i in 0..config.threads {
-        let store_rc = Arc::clone(&store);
+        let listener = shared_server.clone();
         let core_ids_clone = core_ids.clone();
         std::thread::spawn(move || {
             debug!("Creating runtime {}", i);
@@ -63,8 +65,7 @@ fn create_current_thread_server(
             let res = core_affinity::set_for_current(core_id);
             let create_runtime = || {
                 let child_runtime = create_current_thread_runtime();
-                let mut tcp_server =
-                    memcache_server::memc_tcp::MemcacheTcpServer::new(memc_config, store_rc);
+                let mut tcp_server = listener;
                 child_runtime.block_on(tcp_server.run(addr)).unwrap()
             };
             if res {
